@@ -61,7 +61,7 @@ type WL struct {
 var kindsFor = map[string][]string{
 	"loaddir": {"frag_byte", "frag_byte", "frag_trunc", "frag_extend", "frag_swap", "frag_remove", "manifest_byte", "manifest_byte", "manifest_byte", "manifest_trunc",
 		"mf_count", "mf_cbytes", "mf_sha", "mf_path", "mf_phase", "mf_codec", "mf_graphcount", "mf_nodecount", "mf_dropmetrics", "mf_metrics_value", "extra_garbage_manifest",
-		"resigned_bad_edge", "resigned_bad_edge", "resigned_dup_node", "mf_path_alias"},
+		"resigned_bad_edge", "resigned_bad_edge", "resigned_dup_node", "resigned_bad_type", "resigned_bad_type", "mf_path_alias"},
 	"tarload": {"byte", "byte", "trunc", "extend", "hostile", "hostile", "hostile", "readerr"},
 	"unpackenc": {"byte", "byte", "trunc", "extend", "frame_swap", "frame_dup", "frame_drop", "frame_dropfinal", "frame_type", "wrongkey", "hostile", "readerr", "inner_frag_byte", "inner_alias_corrupt", "inner_alias_only"},
 	"unpack":    {"byte", "byte", "trunc", "extend", "frame_swap", "frame_dup", "frame_drop", "frame_dropfinal", "frame_type", "wrongkey", "hostile", "hostile", "readerr", "inner_frag_byte", "inner_alias_corrupt", "inner_alias_only"},
@@ -705,6 +705,38 @@ func (a *art) runLoadDir(mu Mut) (string, string) {
 				field = "end_id"
 			}
 			lines[int(mu.B/2)%len(lines)][field] = bad
+			return true
+		})
+		if !ok {
+			return "", ""
+		}
+		forceNoVerify = true
+	case "resigned_bad_type":
+		// a record whose JSON types do not fit the fragment schema (properties as a list, kinds as a string, ...)
+		phase := []string{"nodes", "nodes", "edges"}[int(mu.C)%3]
+		ok := a.resign(dir, phase, mu.A, func(lines []map[string]any, _ []string) bool {
+			if len(lines) == 0 {
+				return false
+			}
+			rec := lines[len(lines)-1-int(mu.B)%len(lines)]
+			switch int(mu.B/7) % 4 {
+			case 0:
+				rec["properties"] = []any{}
+			case 1:
+				rec["properties"] = "not-a-map"
+			case 2:
+				if phase == "nodes" {
+					rec["kinds"] = "NotAList"
+				} else {
+					rec["kind"] = []any{"x"}
+				}
+			default:
+				if phase == "nodes" {
+					rec["kinds"] = []any{1, 2}
+				} else {
+					rec["start_id"] = 17
+				}
+			}
 			return true
 		})
 		if !ok {
